@@ -192,7 +192,7 @@ def check_text(text, words, cells, max_pc, after_rejected=False, size=4096):
 DECLS = [(), ((7,),), ((7, 0x00F, 3),), ((1, 2), (0xFFFF,)), ((3,), (4, 5, 6)), ((4, 0, 6),), ((0, 0, 1), (0,))]
 
 
-DECOR = [" # plain comment", " ## two hashes", "  # see issue #12 # and more", "\t# tab before", " #", "   ", "", " # LDA 5", " #: label-like:"]
+DECOR = [" # form\x0cfeed", " # line\u2028separator x", " # plain comment", " ## two hashes", "  # see issue #12 # and more", "\t# tab before", " #", "   ", "", " # LDA 5", " #: label-like:"]
 
 
 def decorate(text, k):
